@@ -309,3 +309,55 @@ def _np_guarded(f):
         if s.k == 'if' and s.cond == ('bin', 'is', ('var', 'np'), ('none',)) and _always_leaves(s.then):
             return True
     return False
+
+
+# ------------------------------------------------------------------------------------------ mapping fields used as objects
+_DICT_ATTRS = set(dir(dict))
+
+
+def rule_mapping_fields(ctx, m, modules):
+    """Contradiction rule: a field `self.F` that the class expands as a mapping somewhere (`**self.F`, `self.F.get(...)`, `self.F['key']`, `{**self.F}`)
+    is a dict; reading or writing an attribute on it that dict does not have (`self.F.use_c`) raises AttributeError on every call of that method."""
+    n = 0
+    for mname in modules:
+        mod = m.py(mname)
+        by_cls = {}
+        for q, f in mod.funcs.items():
+            if f.cls:
+                by_cls.setdefault(f.cls, []).append((q, f))
+        # fields known to be mappings anywhere in the module's classes (subclasses share the field with their base)
+        mapping = set()
+        for cls, fs in by_cls.items():
+            for q, f in fs:
+                for s in walk_stmts(f.body):
+                    for e in stmt_exprs(s):
+                        for x in walk_expr(e):
+                            fld = None
+                            if x[0] == 'call':
+                                for k, v in x[3]:
+                                    if k is None and v[0] == 'attr' and v[1] == ('var', 'self'):
+                                        fld = v[2]
+                                if x[1][0] == 'attr' and x[1][2] in ('get', 'items', 'keys', 'pop', 'setdefault', 'update') and x[1][1][0] == 'attr' and x[1][1][1] == ('var', 'self'):
+                                    fld = x[1][1][2]
+                            if x[0] == 'idx' and x[1][0] == 'attr' and x[1][1] == ('var', 'self') and x[2][0] == 'str':
+                                fld = x[1][2]
+                            if x[0] == 'dict':
+                                for kk, vv in x[1]:
+                                    if kk is None and vv[0] == 'attr' and vv[1] == ('var', 'self'):
+                                        fld = vv[2]
+                            if fld:
+                                mapping.add(fld)
+        for cls, fs in sorted(by_cls.items()):
+            for q, f in sorted(fs):
+                for s in walk_stmts(f.body):
+                    for e in stmt_exprs(s):
+                        for x in walk_expr(e):
+                            if x[0] == 'attr' and x[1][0] == 'attr' and x[1][1] == ('var', 'self') and x[1][2] in mapping:
+                                n += 1
+                                if x[2] not in _DICT_ATTRS:
+                                    ctx.violation('R-SIG', mod.path, q, 'attribute %s of mapping field %s' % (x[2], x[1][2]),
+                                                  '`self.%s` is used as a mapping elsewhere in this module (`**self.%s`, `.get(...)`), but `%s` reads/writes the attribute `%s` on it: '
+                                                  'a dict has no such attribute, so every call of %s raises AttributeError' % (x[1][2], x[1][2], q, x[2], q), s.line)
+    ctx.count('attribute uses of mapping fields', n)
+    return n
+
